@@ -29,6 +29,7 @@ from kappadata.datasets.kd_dataset import KDDataset
 from kappadata.datasets.kd_subset import KDSubset
 from kappadata.wrappers.mode_wrapper import ModeWrapper
 from kappadata.wrappers.sample_wrappers.kd_mix_wrapper import KDMixWrapper
+from kappadata.wrappers.sample_wrappers.label_smoothing_wrapper import LabelSmoothingWrapper
 from kappadata.wrappers.sample_wrappers.x_transform_wrapper import XTransformWrapper
 
 from . import core
@@ -40,7 +41,8 @@ RULE = ("random id-encoded datasets (2..64 samples; 1..4-d samples with dims 1..
         "{tiny, .5, 1}, alpha .1..8, seeds None/0/small/large, optional cutmix_p>0 (enumerated refusal), KDMixWrapper plain / "
         "over KDSubset / over and under XTransformWrapper(id, neg, double); per case 3..6 indices x the request forms "
         "'x class','class x','x','class' + forms with index/ctx items; plus dedicated p=1 cases (64 distinct classes, all 64 "
-        "indices, distinct seeds) for the binomial clause. A case is distinct by its full spec; every case is non-trivial")
+        "indices, distinct seeds) for the binomial clause and the first/last-partner census; 2-/3-sample p=1 datasets x 64 seeds per "
+        "index; ~22% soft labels (LabelSmoothingWrapper below the mix wrapper / soft-vector leaf), ~20% ctx-coupled leaves with return_ctx. A case is distinct by its full spec; every case is non-trivial")
 ASSUMPTIONS = [
     "leaves return python int (or 0-d long tensor) labels and a fresh float32 tensor per load (the wrapper mixes in place), as the repository's datasets do",
     "datasets have >= 2 samples ('one other sample' is undefined for a single sample); samples of one dataset have equal ndim; "
@@ -52,10 +54,16 @@ ASSUMPTIONS = [
     "cutmix_p > 0 is driven only as refusal class 'cutmix-not-implemented' (NotImplementedError raised by the wrapper itself); "
     "results returned in such configurations must be untouched / mixup results (or, should cutmix get implemented, an "
     "element-wise paste of the partner with the label weight equal to the retained fraction)",
+    "soft labels: the dataset below the mix wrapper serves float class vectors that sum to one (LabelSmoothingWrapper(smoothing>0) with "
+    ">= 2 classes, or a leaf that returns such vectors); the mixed label must be w*L(c_i) + (1-w)*L(c_p); the 'at most two non-zeros' "
+    "reading only applies to hard labels",
+    "ctx-coupled leaves: getitem_class(idx, ctx) answers for the sample whose x was loaded last with the same ctx (the loaders of one "
+    "sample share the ctx; label requested right after the data of the same sample, as the current wrapper does); driven with return_ctx=True",
+    "partner census: in the 64-sample p=1 runs every sample can be drawn as partner with probability >= 1/64; small datasets: P(partner=self) <= 1/n",
     "without a seed the request forms are judged separately (no agreement between separate requests is claimed)",
     "KDSubset *above* the mix wrapper is not driven: the ModeWrapper constructor refuses outer layers without the fused accessor",
 ]
-MONITORS = ["joint_results_checked", "x_only_results_checked", "label_only_results_checked", "seeded_form_agreement_checked",
+MONITORS = ["small_dataset_indices_checked", "soft_label_results_checked", "ctx_coupled_results_checked", "joint_results_checked", "x_only_results_checked", "label_only_results_checked", "seeded_form_agreement_checked",
             "unified_shape_results_checked", "untouched_results_seen", "mixed_results_seen", "p1_draws"]
 
 # tolerances (see ASSUMPTIONS)
@@ -65,8 +73,11 @@ TY = 3e-4     # label vs expected label built from the data-decoded weight (obse
 TSUM = 1e-5
 P1_EPS = 1e-3
 P1_Q0 = 1.0 / 64 + 2e-3
-P1_ALARM = 1e-12
+P1_ALARM = 5e-13     # binomial clause; the partner-census and small-dataset clauses add < 1e-13, total < 1e-12 per run
 P1_MIN_DRAWS = 3000
+P1_CENSUS_MIN = 2000  # label-bearing p=1 draws needed for 'first/last sample occurs as partner': 2*(63/64)^2000 < 5e-14
+SMALL_K = 64          # seeds per index on 2-/3-sample datasets: (1/2 + 2e-3)^64 < 1e-19
+LAST_X = "c11_last_x"
 CTX_KEY = "c11_loads"
 
 TF = {"id": (lambda x: x, 1.0), "neg": (lambda x: torch.neg(x), -1.0), "dbl": (lambda x: x * 2.0, 2.0)}
@@ -96,11 +107,21 @@ def encode(j, shape):
     return ((j + 1) * 4096 + 2048 * bit + code).astype(np.float64)
 
 
+def smooth_vec(c, ncls, smooth):
+    """label-smoothed one-hot (float64): off = s/C everywhere, on = 1 - s + s/C at the class; s=None/0 -> one-hot"""
+    sm = float(smooth or 0.0)
+    v = np.full(ncls, sm / ncls, dtype=np.float64)
+    v[c] = 1.0 - sm + sm / ncls
+    return v
+
+
 class IdLeaf(KDDataset):
     """root dataset with id/position-encoded samples; every load returns a fresh tensor and is logged (list + ctx)"""
 
-    def __init__(self, shapes, classes, n_classes, label_kind="int"):
+    def __init__(self, shapes, classes, n_classes, label_kind="int", ctx_coupled=False, smooth=None):
         super().__init__()
+        self.ctx_coupled = ctx_coupled      # getitem_class answers for the sample whose x was loaded last with this ctx
+        self.smooth = smooth                # label_kind "soft": smoothed one-hot float vector
         self.shapes = [tuple(s) for s in shapes]
         self.classes = [int(c) for c in classes]
         self.n_classes = int(n_classes)
@@ -118,6 +139,8 @@ class IdLeaf(KDDataset):
         if not 0 <= idx < len(self.shapes):
             raise IndexError(f"IdLeaf: index {idx} out of range for {len(self.shapes)} samples")
         self._note("x", idx, ctx)
+        if ctx is not None:
+            ctx[LAST_X] = idx
         if idx not in self._enc:
             self._enc[idx] = torch.from_numpy(encode(idx, self.shapes[idx]).astype(np.float32))
         return self._enc[idx].clone()   # fresh tensor per load
@@ -127,7 +150,11 @@ class IdLeaf(KDDataset):
         if not 0 <= idx < len(self.shapes):
             raise IndexError(f"IdLeaf: index {idx} out of range for {len(self.shapes)} samples")
         self._note("class", idx, ctx)
+        if self.ctx_coupled and ctx is not None and LAST_X in ctx:
+            idx = ctx[LAST_X]               # the loaders of one sample share the ctx (x first, then its label)
         c = self.classes[idx]
+        if self.label_kind == "soft":
+            return torch.from_numpy(smooth_vec(c, self.n_classes, self.smooth).astype(np.float32)).clone()
         return torch.tensor(c, dtype=torch.long) if self.label_kind == "tensor0d" else c
 
     def getshape_class(self):
@@ -208,6 +235,16 @@ def _gen_mix(rng):
         "unify": unify, "seed": seed, "return_ctx": rng.random() < 0.2,
     }
     spec.update(spec_p)
+    # soft labels (label smoothing below the mix wrapper / leaf that serves soft vectors) and ctx-coupled leaves
+    spec["smooth"], spec["smooth_via"] = None, None
+    if rng.random() < 0.22:
+        spec["smooth"] = rng.choice([0.1, 0.1, 0.3, 0.5, 1.0, round(rng.uniform(0.01, 0.9), 3)])
+        spec["smooth_via"] = "wrapper" if (ncls > 1 and rng.random() < 0.6) else "leaf"
+        if spec["smooth_via"] == "leaf":
+            spec["label_kind"] = "soft"
+    spec["ctx_coupled"] = rng.random() < 0.2
+    if spec["ctx_coupled"]:
+        spec["return_ctx"] = True
     k = min(n, rng.randint(3, 6))
     idx = set(rng.sample(range(n), k)) | ({0, n - 1} if rng.random() < 0.5 else set())
     idx = sorted(idx)
@@ -261,6 +298,19 @@ def p1_specs(verif_seed, shard_idx, count):
     return out
 
 
+def _gen_small(rng):
+    """2-/3-sample datasets, mixup_p=1, alpha>=1: over SMALL_K seeds every index must be mixed with another sample"""
+    n = rng.choice([2, 2, 3])
+    nd = rng.choice([1, 2, 3])
+    shape = [rng.randint(2, 4) for _ in range(nd)]
+    return {"kind": "p1small", "m": n, "shapes": [shape] * n, "classes": rng.sample(range(n), n), "ncls": n,
+            "label_kind": rng.choice(["int", "tensor0d"]), "subset": None, "tf_below": None, "tf_above": None,
+            "unify": rng.choice([None, "pad_or_cut_end"]), "seed0": rng.randrange(10 ** 6), "stride": rng.choice([7, 100, 1009]),
+            "return_ctx": False, "cutmix_p": None, "cutmix_alpha": None, "mixup_p": rng.choice([1.0, 1]),
+            "mixup_alpha": rng.choice([1, 1.0, 2.0, 4.0]), "smooth": None, "smooth_via": None, "ctx_coupled": False,
+            "indices": list(range(n)), "forms": [rng.choice(["x class", "class x", "class", "x"])]}
+
+
 def _p1_count(run):
     if run.quick():
         return 50                                   # 3200 draws
@@ -275,9 +325,12 @@ def gen_cases(run):
     p1 = p1_specs(run.seed, sh, cnt)
     n = run.n(650, 64000)
     every = max(1, n // max(1, len(p1)))
+    n_small = 8 if run.quick() else 40
     for i in range(n):
         if i % every == 0 and p1:
             yield p1.pop()
+        if i < n_small:
+            yield _gen_small(run.rng)
         yield _gen_mix(run.rng)
     while p1:
         yield p1.pop()
@@ -300,6 +353,8 @@ class Model:
         self.A = [f * encode(j, spec["shapes"][j]) for j in view]
         self.classes = [spec["classes"][j] for j in view]
         self.ncls = spec["ncls"]
+        self.smooth = spec.get("smooth")
+        self.soft = bool(self.smooth)
         self.uniform = len(set(self.shapes)) == 1
         self._cache = {}
 
@@ -321,9 +376,20 @@ class Model:
         return self._cache[i]
 
     def onehot(self, c):
-        v = np.zeros(self.ncls, dtype=np.float64)
-        v[c] = 1.0
-        return v
+        """label vector the dataset under the mix wrapper serves for class c (one-hot, or its smoothed version)"""
+        return smooth_vec(c, self.ncls, self.smooth)
+
+    def fit_label(self, yv, ci):
+        """label-only decoding: [(class q, w)] with yv ~ w*L(ci) + (1-w)*L(q), q a class of the dataset, w in [0,1]"""
+        e_i = self.onehot(ci)
+        out = []
+        for q in sorted(set(self.classes)):
+            d = self.onehot(q) - e_i
+            dd = float(d @ d)
+            t = float((yv - e_i) @ d) / dd if dd > 0 else 0.0
+            if -TT <= t <= 1 + TT and np.abs(yv - (e_i + t * d)).max() <= 1e-5:
+                out.append((q, 1.0 - t))
+        return out
 
 
 def decode_x(M, i, x):
@@ -367,16 +433,20 @@ def _mix_kwargs(spec):
 
 
 def _describe(spec):
-    if "_desc" not in _DESC or _DESC.get("_id") != id(spec):
-        _DESC["_id"], _DESC["_desc"] = id(spec), _describe_uncached(spec)
-    return _DESC["_desc"]
+    if _DESC["spec"] is not spec:          # the reference keeps the spec alive, so identity is reliable
+        _DESC["spec"], _DESC["desc"] = spec, _describe_uncached(spec)
+    return _DESC["desc"]
 
 
-_DESC = {}
+_DESC = {"spec": None, "desc": ""}
 
 
 def _describe_uncached(spec):
-    st = "KDMixWrapper(" + ("XT[%s](" % spec["tf_below"] if spec["tf_below"] else "") + ("KDSubset(leaf)" if spec["subset"] is not None else "leaf")
+    leaf = "leaf" + ("[ctx-coupled]" if spec.get("ctx_coupled") else "") + (f"[soft {spec['smooth']}]" if spec.get("smooth_via") == "leaf" else "")
+    inner = f"KDSubset({leaf})" if spec["subset"] is not None else leaf
+    if spec.get("smooth_via") == "wrapper":
+        inner = f"LabelSmoothing[{spec['smooth']}]({inner})"
+    st = "KDMixWrapper(" + ("XT[%s](" % spec["tf_below"] if spec["tf_below"] else "") + inner
     st += (")" if spec["tf_below"] else "") + ", " + ", ".join(f"{k}={v!r}" for k, v in _mix_kwargs(spec).items()) + ")"
     if spec["tf_above"]:
         st = f"XT[{spec['tf_above']}]({st})"
@@ -384,12 +454,15 @@ def _describe_uncached(spec):
 
 
 def _build(run, spec):
-    leaf = IdLeaf(spec["shapes"], spec["classes"], spec["ncls"], spec["label_kind"])
+    leaf = IdLeaf(spec["shapes"], spec["classes"], spec["ncls"], spec["label_kind"], ctx_coupled=spec.get("ctx_coupled", False),
+                  smooth=spec.get("smooth"))
 
     def make():
         ds = leaf
         if spec["subset"] is not None:
             ds = KDSubset(ds, list(spec["subset"]))
+        if spec.get("smooth_via") == "wrapper":
+            ds = LabelSmoothingWrapper(ds, smoothing=spec["smooth"])
         if spec["tf_below"] is not None:
             ds = XTransformWrapper(ds, transform=TF[spec["tf_below"]][0])
         ds = KDMixWrapper(ds, **_mix_kwargs(spec))
@@ -423,7 +496,7 @@ def _label_struct(run, M, y, what):
     if abs(yv.sum() - 1.0) > TSUM:
         run.violation("label:does-not-sum-to-one", f"{what}: label sums to {yv.sum()!r}: {_fmt(yv)}")
         return None
-    if int((yv > 0).sum()) > 2:
+    if not M.soft and int((yv > 0).sum()) > 2:
         run.violation("label:more-than-two-classes", f"{what}: label has {(yv > 0).sum()} non-zero entries: {_fmt(yv)}")
         return None
     return yv
@@ -454,6 +527,14 @@ def judge(run, spec, M, i, x, y, form, allow_paste):
     if x is None:
         # label-only request: own class + at most one class of some sample of the same dataset
         run.count("label_only_results_checked")
+        if M.soft:
+            fits = M.fit_label(yv, ci)
+            if not fits:
+                run.violation("label:not-a-mix-of-two-sample-labels", f"{what}: label {_fmt(yv)} is not w*L({ci}) + (1-w)*L(q) for any class q of the dataset "
+                                                                      f"(L = label vector served below the mix wrapper, smoothing {M.smooth})")
+                return None
+            w_own = max(w for _, w in fits)
+            return {"unmixed_like": bool(w_own >= 1 - P1_EPS), "own_weight": w_own}
         other = [int(c) for c in np.nonzero(yv > 0)[0] if c != ci]
         if len(other) > 1:
             run.violation("label:own-class-missing", f"{what}: label {_fmt(yv)} has two non-zero classes, none of them the class {ci} of sample {i}")
@@ -504,8 +585,12 @@ def judge(run, spec, M, i, x, y, form, allow_paste):
     label_onehot_own = np.abs(yv - e_i).max() <= TY
     cand_classes = {M.classes[p] for p, _, _ in cands}
     other = [int(c) for c in np.nonzero(yv > TY)[0] if c != ci]
+    if M.soft:
+        other = [q for q, _ in M.fit_label(yv, ci) if q != ci] or [-1]
     dec = f"data decodes to (partner, weight) {[(p, round(w, 5)) for p, w, _ in cands[:4]]} (partner classes {sorted(cand_classes)[:4]}), own class {ci}, label {_fmt(yv)}"
-    if self_like:
+    if M.soft and other == [-1]:
+        key = "label:not-a-mix-of-two-sample-labels"
+    elif self_like:
         key = "label:mixed-but-data-untouched"
     elif label_onehot_own:
         key = "label:untouched-but-data-mixed"
@@ -542,6 +627,8 @@ def _p_class(p):
 def run_case(run, spec):
     if spec["kind"] == "p1_aggregate":
         return _run_p1_aggregate(run, spec)
+    if spec["kind"] == "p1small":
+        return _run_p1small(run, spec)
     _run_mix(run, spec)
 
 
@@ -554,6 +641,9 @@ def _run_mix(run, spec):
     cutmix = bool(spec["cutmix_p"])
     refusal = "cutmix-not-implemented" if cutmix else None
     seeded = spec["seed"] is not None
+    if not seeded:
+        # an unseeded wrapper may derive its stream from the global numpy RNG: pin it per case, so a run is reproducible
+        np.random.seed(int(core.digest(spec), 16) % (2 ** 32))
     run.cover("config", "subset" if spec["subset"] is not None else "-", spec["tf_below"] or "-", spec["tf_above"] or "-",
               "unif" if M.uniform else "diff", spec["unify"] or "-", _p_class(spec["mixup_p"]), _p_class(spec["cutmix_p"]),
               "seed" if seeded else "noseed", spec["label_kind"])
@@ -591,6 +681,10 @@ def _run_mix(run, spec):
             if info is None:
                 continue
             per_form[form] = (x, y, info)
+            if M.soft and y is not None:
+                run.count("soft_label_results_checked")
+            if spec.get("ctx_coupled") and y is not None and not info["unmixed_like"]:
+                run.count("ctx_coupled_results_checked")
             kind = "joint" if (x is not None and y is not None) else ("x" if x is not None else "class")
             if info.get("paste"):
                 outcome = "paste"
@@ -605,14 +699,56 @@ def _run_mix(run, spec):
                 run.count("p1_draws")
                 if info["unmixed_like"]:
                     run.count("p1_unmixed_looking")
+                if y is not None:
+                    for name, j in (("first", 0), ("last", M.n - 1)):
+                        if i != j:
+                            run.count(f"p1_census_eligible_{name}")
+                            if float(y[M.classes[j]]) > 0:
+                                run.count(f"p1_partner_is_{name}")
             elif outcome == "mixed" and kind == "joint" and len(run.samples) < 6 and not sampled and \
                     (M.shapes[info["p"]] != M.shapes[i] or len(run.samples) % 2 == 0):
                 sampled = True
                 run.sample({"stack": _describe(spec), "mode": form, "index": i_req, "shape_i": M.shapes[i], "decoded_partner": info["p"],
                             "shape_partner": M.shapes[info["p"]], "decoded_weight": round(info["w"], 6),
-                            "label_nonzero": {int(c): round(float(y[c]), 6) for c in torch.nonzero(y).flatten().tolist()}})
+                            "label_top2": {int(c): round(float(y[c]), 6) for c in torch.topk(y, min(2, y.numel())).indices.tolist()}})
         if seeded and len(per_form) > 1:
             _agree(run, spec, M, i_req, per_form)
+
+
+def _run_p1small(run, spec):
+    """2-/3-sample datasets with mixup_p=1: for a fixed index, SMALL_K seeds; at least one result must be a mix with
+    another sample. P(all SMALL_K look un-mixed | correct) <= (1/2 + 2e-3)^64 < 1e-19 (partner = self with probability
+    <= 1/n <= 1/2, lambda ~ Beta(alpha>=1) within 1e-3 of 1 with probability < 2e-3)."""
+    M = Model(spec)
+    form = spec["forms"][0]
+    run.cover("small", M.n, form, len(M.shapes[0]))
+    for i in spec["indices"]:
+        judged = mixed = 0
+        for k in range(SMALL_K):
+            sk = dict(spec, seed=spec["seed0"] + spec["stride"] * k, kind="mix")
+            leaf, ds = _build(run, sk)
+            if ds is None:
+                return
+            ok, mw = call_real(run, lambda: ModeWrapper(ds, mode=form), crash_key="modewrapper-ctor-crash", what=f"ModeWrapper({_describe(sk)}, mode={form!r})")
+            if not ok:
+                return
+            ok, res = call_real(run, lambda: mw[i], crash_key="getitem-crash", what=f"{_describe(sk)} mode={form!r} [{i}]")
+            if not ok:
+                return
+            x, y = _split(form, res, False)
+            info = judge(run, sk, M, i, x, y, form, allow_paste=False)
+            if info is None:
+                return
+            judged += 1
+            mixed += 0 if info["unmixed_like"] else 1
+        run.count("small_dataset_indices_checked")
+        run.count("small_dataset_draws", judged)
+        if mixed == 0:
+            run.violation("p1:sample-never-mixed-with-another-sample",
+                          f"{_describe(dict(spec, seed='seed0+stride*k'))} mode={form!r}: index {i} of a {M.n}-sample dataset looks un-mixed for all {SMALL_K} seeds "
+                          f"{spec['seed0']}+{spec['stride']}*k (P < 1e-19 if the partner can be another sample)")
+        else:
+            run.cover("small-mixed-fraction", M.n, min(9, 10 * mixed // SMALL_K))
 
 
 def _agree(run, spec, M, i_req, per_form):
@@ -694,6 +830,14 @@ def _decide_p1(run, spec_for_replay):
     run.notes["p1_clause"] = {"draws": n, "unmixed_looking": u, "expected_if_partner_uniform": round(n / 64, 1),
                               "violation_threshold": thr, "null_probability_bound": P1_Q0, "false_alarm_bound": P1_ALARM,
                               "tail_at_threshold": binom_tail(n, P1_Q0, thr)}
+    for name in ("first", "last"):
+        elig, hits = run.counters.get(f"p1_census_eligible_{name}", 0), run.counters.get(f"p1_partner_is_{name}", 0)
+        run.notes["p1_clause"][f"partner_is_{name}_sample"] = [hits, elig]
+        if elig >= P1_CENSUS_MIN and hits == 0:
+            run.violation(f"p1:{name}-sample-never-drawn-as-partner",
+                          f"mixup_p=1 on 64 samples: in {elig} mixed results of other indices the {name} sample (index {0 if name == 'first' else 63}) never "
+                          f"occurs as partner; if every sample can be the partner (probability >= 1/64 each) this has probability (63/64)^{elig} < 3e-14",
+                          spec_for_replay)
     if u >= thr:
         run.violation("p1:unmixed-samples-exceed-binomial-bound",
                       f"mixup_p=1 on 64 distinct classes: {u} of {n} (seed, index) draws look un-mixed; even if every self-partner draw (1/64) "
